@@ -33,6 +33,7 @@ inductive Val where
   | none
   | str (s : Name)
   | nat (n : Nat)
+  | int (i : Int)             -- a value converted by `type=int`
   | list (l : List Name)
   deriving DecidableEq, Repr
 
@@ -76,6 +77,7 @@ def defaultOf (o : OptSpec) : Option Val :=
   | .count => some (.nat 0)
   | .optChoice _ d => some (.str d)
   | .help => Option.none
+  | .version _ => Option.none                        -- dest and default are SUPPRESS, like help
   | .pos _ => some .none
 
 /-- `parse_known_args`: defaults of all actions, first action of a dest wins -/
@@ -314,10 +316,12 @@ def missingReq (tbl : List OptSpec) (used : List Name) : Bool :=
 def finish (tbl : List OptSpec) (ps : PS) : Except Fail PS :=
   if missingReq tbl ps.used then .error (.exit 2) else finishPos tbl ps
 
-/-- an action without argument: `store_true`, `store_false`, `store_const`, `count`, help -/
+/-- an action without argument: `store_true`, `store_false`, `store_const`, `count`, help, version
+(the last two end the scan at once: text printed, `SystemExit(0)`) -/
 def applyNoArg (o : OptSpec) (ps : PS) : Except Fail PS :=
   match o.kind with
   | .help => .error (.exit 0)
+  | .version v => .error (.version v)
   | .flag =>
     match mutexOk o ps with
     | Option.none => .error (.exit 2)
@@ -348,13 +352,38 @@ def applyAll : List OptSpec → PS → Except Fail PS
     | .error e => .error e
     | .ok ps' => applyAll os ps'
 
+/-- decimal digits with single underscores between digits (`int('1_000')`), value so far, "last was a digit" -/
+def natU : List Char → Nat → Bool → Option Nat
+  | [], acc, lastDigit => if lastDigit then some acc else Option.none
+  | c :: r, acc, lastDigit =>
+    if c.isDigit then natU r (acc * 10 + (c.toNat - 48)) true
+    else if c = '_' && lastDigit then natU r acc false
+    else Option.none
+
+/-- Python's `int(text)` on the protocol's alphabet (ASCII letters, digits, `-`, `=`, `_`): an optional `-`,
+then digits with single `_` between them -/
+def pyInt (s : Name) : Option Int :=
+  match s with
+  | '-' :: r => (natU r 0 false).map (fun n => - (n : Int))
+  | _ => (natU s 0 false).map (fun n => (n : Int))
+
+/-- `_get_values` of a value option: `type=` conversion, then the `choices=` test; `none`: refused -/
+def convArg (c : Conv) (v : Name) : Option Val :=
+  match c with
+  | .str => some (.str v)
+  | .int => (pyInt v).map .int
+  | .oneOf l => if l.contains v then some (.str v) else Option.none
+
 /-- an action with its argument -/
 def applyArg (o : OptSpec) (v : Name) (ps : PS) : Except Fail PS :=
   match o.kind with
   | .value =>
-    match mutexOk o ps with
+    match convArg o.conv v with
     | Option.none => .error (.exit 2)
-    | some ps => .ok (setv o (.str v) ps)
+    | some val =>
+      match mutexOk o ps with
+      | Option.none => .error (.exit 2)
+      | some ps => .ok (setv o val ps)
   | .optChoice choices _ =>
     if choices.contains v then
       match mutexOk o ps with
@@ -377,6 +406,15 @@ def isArgWord (tbl : List OptSpec) (ps : PS) (w : Name) : Bool :=
     | .word => true
     | _ => false
 
+/-- the arguments of the last option of a token are matched before any action of the token runs: a value
+option at the end of `-xyz` (or alone) that finds no word behind it is an error even when an option peeled off
+before it is help or version (`-ho` → "expected one argument", status 2) -/
+def valueMissing (tbl : List OptSpec) (ps : PS) (o : OptSpec) (ex : Option Name) (rest : List Name) : Bool :=
+  match ex, o.kind, rest with
+  | Option.none, .value, [] => true
+  | Option.none, .value, w :: _ => !isArgWord tbl ps w
+  | _, _, _ => false
+
 def runP (tbl : List OptSpec) : List Name → PS → Except Fail PS
   | [], ps => finish tbl ps
   | t :: rest, ps =>
@@ -396,6 +434,7 @@ def runP (tbl : List OptSpec) : List Name → PS → Except Fail PS
       match parts with
       | Option.none => .error (.exit 2)
       | some (pre, o, ex) =>
+        if valueMissing tbl ps o ex rest then .error (.exit 2) else
         match applyAll pre ps with
         | .error e => .error e
         | .ok ps =>
@@ -454,6 +493,7 @@ def truthy : Val → Bool
   | .none => false
   | .str s => !s.isEmpty
   | .nat n => n != 0
+  | .int i => i != 0
   | .list l => !l.isEmpty
 
 def noColor : Name := ['n', 'o', '_', 'c', 'o', 'l', 'o', 'r']
@@ -532,6 +572,18 @@ def parseList (cfg : Cfg) (ap : ArgP) (argv : List (Option Name)) : Except Fail 
     let l2 := withDefault cfg st l1
     (afterParse ap.sw (dispatch st l2), l2)
 
+/-- `ArgParser.parse_args(args)` as the caller sees it: the result and the caller's sequence after the call.
+`parseList` above describes the work on the list the method works on. With `copiesArgs` (6b8603f) that is a
+private copy: a tuple is as good as a list and the caller's object stays as it was. Without the copy (older
+code) the working list *is* the caller's list, and a tuple raises `AttributeError` as soon as `--help` has to
+be appended or the default command inserted. -/
+def parseCall (cfg : Cfg) (ap : ArgP) (isTuple : Bool) (argv : List (Option Name)) :
+    Except Fail Ns × List (Option Name) :=
+  let r := parseList cfg ap argv
+  if cfg.copiesArgs then (r.1, argv)
+  else if isTuple && r.2 != argv then (.error (.exc .attributeError), argv)
+  else r
+
 /-- multi-command mode without switches, the arguments given as strings -/
 def parseArgs (cfg : Cfg) (st : St) (argv : List Name) : Except Fail Ns :=
   (parseList cfg { sw := { noLogFile := false, helpIfNoArgs := false }, mode := .multi st } (argv.map some)).1
@@ -554,5 +606,14 @@ def ArgP.addOption (ap : ArgP) (target : Option Name) (s : OptSpec) : Except Fai
       match p.addOpt s with
       | .error e => .error e
       | .ok p' => .ok { ap with mode := .single p' }
+
+/-- an option added through a group object of one command parser (multi-command mode only, like `get_cmd_parser`) -/
+def ArgP.addViaGroup (ap : ArgP) (p : Name) (s : OptSpec) : Except Fail ArgP :=
+  match ap.mode with
+  | .multi st =>
+    match CliGraph.addViaGroup st p s with
+    | .error e => .error e
+    | .ok st' => .ok { ap with mode := .multi st' }
+  | .single _ => .error (.exc .assertion)
 
 end CliGraph
